@@ -8,6 +8,7 @@ from ..report import V
 PID = 'C07'
 T = alphabets.T
 SHAPE_PAIRS = [((1, 1), (1, 3)), ((1, 3), (1, 3)), ((2, 2), (2, 2)), ((2, 3), (2, 2)), ((2, 3), (3, 2)), ((3, 2), (3, 2))]
+SHAPE_PAIRS_THOROUGH = SHAPE_PAIRS + [((3, 3), (3, 3)), ((3, 3), (2, 2)), ((2, 4), (4, 2))]
 
 
 def geometries(R, C):
@@ -269,7 +270,10 @@ def run(col):
     col.assumptions += ["a list-addressed region against a rectangular one of the same size is don't-care",
                         "Container-level correctness of the folded operation is judged by C01/C02/C03/C11/C17, not here"]
     vals = [col.seed % 3] if col.tier == 'quick' else [0, 1, 2]
-    pairs = range(len(SHAPE_PAIRS)) if col.tier == 'thorough' else [0, 2, 3, 4]
+    global SHAPE_PAIRS
+    if col.tier == 'thorough':
+        SHAPE_PAIRS = SHAPE_PAIRS_THOROUGH
+    pairs = list(range(len(SHAPE_PAIRS)))
     for v in vals:
         allc = {pi: cases(*SHAPE_PAIRS[pi]) for pi in pairs}
         _G.update(pp=pp, vidx=v, cases=allc)
@@ -297,7 +301,7 @@ def run(col):
 
 def replay(case):
     pp = env.load()
-    sp, sq = SHAPE_PAIRS[case['pair']]
+    sp, sq = SHAPE_PAIRS_THOROUGH[case['pair']]
     subs, world = e1.build(pp, case['vidx'], world_spec(sp, sq), seed(sp, sq))
     vs, _ = judge(pp, subs, world, case['act'], case['via'])
     return vs
